@@ -26,3 +26,24 @@ claim(
     "Bounded-exhaustive model checking (every shuffle for small instances, SNV counts straddling the int8 boundary up to 300, every partition for n <= 8/11, every dyadic homozygosity table) with conformance in both directions; the compiled sweep is observed as a black box in which a never-visited cell is deterministically detectable.",
     "Trusts TLC and numba compiling the interpreted source faithfully. random_breaks support equality uses a fixed number of seeded draws per (n, breaks). FixHom assumes a threshold above 1/2.",
 )
+claim(
+    "C20",
+    "DESIGN.md section 3, C20; notes/report-C12-C16-C20.md",
+    "TLA+ model of the per-SNV projection (AtomizeOps/Atomize.tla, record domain spanned by build actions, emit/skip actions) model-checked with TLC; every record rendered to VCF and run through the real atomize_vcf, compared line by line; real program outputs, goldens and random records validated by TraceAtomize.tla",
+    "TLC visits every haplotype record of the bounded domain (<= 2 ALT x <= 2 SNV sites over {A,C,G}, no-ALT / no-SNV / monomorphic sites / '.' alleles / five posterior modes incl. missing AFP/ACP, ploidies 1x 2x 4x) and checks the projection invariants; every record is replayed through the real program and every emitted line of real assemble / call / call-exact outputs is validated in TLC against the model.",
+    "Trusts TLC and the Json/IOUtils modules, vlib/vcfgen.py rendering, vlib/vcftext.py parsing and Python Fraction. Exhaustive within the stated record domain; larger records are sampled (seeded).",
+)
+claim(
+    "C16",
+    "DESIGN.md section 3, C16; notes/report-C12-C16-C20.md",
+    "TLA+ model of allele filtering and prior-frequency handling (AlleleFilterOps/AlleleFilter.tla: step-wise machine checked against a declarative definition) model-checked with TLC; every state replayed into LocusPrior.from_variant_record; a covering subset run through call, call-exact and call-pedigree with every output record validated by TraceAlleleFilter.tla",
+    "TLC enumerates every record x filter (7 operator spellings x thresholds x R/A-length field) x prior tag x Float/Integer type of the bounded domain and checks the stated clauses; every state is executed on the real record parser and a covering subset through the three calling programs (in-process and CLI), with FILTER/GT/AFP/GP/AFPRIOR/REFMASKED validated in TLC.",
+    "Trusts TLC, pysam/htslib INFO parsing on the implementation side, vcfgen/vcftext, and the repository BAMs as read data. Values are integer or dyadic so that text, float32 and float64 agree; non-dyadic boundaries are not generated.",
+)
+claim(
+    "C12",
+    "DESIGN.md section 3, C12; notes/report-C12-C16-C20.md",
+    "TLA+ model of the haplotype codec (HapCodecOps/HapCodec.tla: SNV columns, first-appearance allele numbering, encode, decode) model-checked with TLC; every record replayed into from_variant_record / encode_haplotypes / format_haplotypes; (assemble record, call / call-exact record) pairs of real pipelines validated by TraceHapCodec.tla",
+    "TLC visits every REF + up to 3 distinct ALT record over the bounded alphabets / lengths and checks the round trip and numbering invariants; each state is executed on the real codec (both SNV paths); the pipeline clause is decided by validating in TLC every pair produced by feeding golden, freshly assembled and synthetic REFMASKED assemble outputs to call and call-exact.",
+    "Trusts TLC, vcfgen/vcftext. Assemble outputs are sampled on the repository's test data (threshold x ploidy x BAM-set grid), not exhaustive.",
+)
